@@ -117,6 +117,11 @@ FactoryRole(e, role) ==
   IN  IF "panic" \in DOMAIN x.out THEN [v |-> "VIOLATION", why |-> "panic", role |-> role, msg |-> x.out.panic]
       ELSE IF free \/ free2 THEN OKV
       ELSE IF want /\ "err" \in DOMAIN x.out THEN [v |-> "VIOLATION", why |-> "a valid name was refused", role |-> role, err |-> x.out.err]
+      \* catalogued deviation "name-start-unchecked" (see Trace_Char.tla): production Name of the parser is
+      \* (NameChar)+; as-is model: a PI target is accepted iff it is an Nmtoken that is not the reserved word
+      ELSE IF /\ ~want /\ "ok" \in DOMAIN x.out /\ role = "pi" /\ "name-start-unchecked" \in Open
+              /\ IsNmtoken(e.s) /\ ~IsXmlReserved(e.s)
+           THEN [v |-> "name-start-unchecked", role |-> role, s |-> e.s]
       ELSE IF ~want /\ "ok" \in DOMAIN x.out THEN [v |-> "VIOLATION", why |-> "an invalid name was accepted", role |-> role]
       ELSE IF ~want /\ x.out.err # "InvalidCharacterErr" THEN [v |-> "VIOLATION", why |-> "wrong exception class for an invalid name", role |-> role, err |-> x.out.err]
       ELSE OKV
@@ -128,8 +133,10 @@ FactoryC15(e, role) ==
       ELSE OKV
 FRoles == <<"elem", "attr", "pi", "setattr">>
 FirstBad(f(_, _), e) ==
-  LET bad == { i \in 1..4 : f(e, FRoles[i]).v # "ok" }
-  IN  IF bad = {} THEN OKV ELSE f(e, FRoles[CHOOSE i \in bad : \A j \in bad : i <= j])
+  LET bad  == { i \in 1..4 : f(e, FRoles[i]).v # "ok" }
+      viol == { i \in bad : f(e, FRoles[i]).v = "VIOLATION" }
+      pick == IF viol # {} THEN viol ELSE bad
+  IN  IF bad = {} THEN OKV ELSE f(e, FRoles[CHOOSE i \in pick : \A j \in pick : i <= j])
 
 Verdict(e) ==
   IF e.event = "cd" THEN [c13 |-> OKV, c16 |-> C16Verdict(e), c15 |-> C15Verdict(e)]
